@@ -195,11 +195,20 @@ func (lexer *Lexer) Linenum() int {
 
 func (lex *Lexer) Reset() {
 	lex.stream = nil
+	lex.next = nil
 	lex.tokens = lex.tokens[:0]
 	lex.state = LexerNormal
 	lex.linenum = 1
 	lex.preBuiltinRune = 0
 	lex.buffer.Reset()
+
+	// forget the look-back state too, so that how a new text
+	// is read does not depend on the text read before it.
+	lex.prevrune = 0
+	lex.prevToken = Token{}
+	lex.prevPrevToken = Token{}
+	lex.priori = 0
+	lex.priorRune = [20]rune{}
 }
 
 func (lex *Lexer) EmptyToken() Token {
